@@ -79,6 +79,7 @@ var c20Env = map[string]string{"protocol-version": "PROTOCOL_VERSION", "max-prot
 func c20(e *Env) {
 	c := e.C
 	cfgW := swarmWorld(e)
+	cfgW.AuthUser, cfgW.AuthPass = "", "" // the generated command lines carry no credentials
 	cfgW.WClock = 0
 	cfgW.Hosts = 1
 	cfgW.KeepLog = e.Keep
